@@ -368,6 +368,10 @@ func _json(args ...interface{}) (interface{}, interface{}) {
 	if err != nil {
 		return args[0], false
 	}
+	if len(args) < 3 {
+		// The selector after json() did not compile to a path (a key holding a quote).
+		return args[0], false
+	}
 	jsonPath, ok := args[2].(*jp.Expr)
 	if !ok {
 		// An explicit argument (`a.json("x")`) is not a compiled path.
@@ -382,6 +386,9 @@ func _json(args ...interface{}) (interface{}, interface{}) {
 }
 
 func xml(args ...interface{}) (interface{}, interface{}) {
+	if len(args) < 3 {
+		return args[0], false
+	}
 	jsonPath, ok := args[2].(*jp.Expr)
 	if !ok {
 		return args[0], false
